@@ -10,8 +10,11 @@ Proved: _directional_distance(E, P)[i, j] = (n_j . p_i + b_j) / n_j0, the vertic
   * the MAXIMUM of the non-positive offsets when some offset is below -tolerance (point below the surface: a negative number, the offset from the closest facet
     plane from below);
   score_samples evaluates it on (y, X[:, low_dim_idx]) with the stored equations and returns one value per sample.
-NOT covered (Qhull / LinearNDInterpolator are external): that the stored equations are the lower facets of the hull of the training data, the vertex selection, the
-high-dimensional residuals: bounded runtime checks only."""
+Data flow around the external objects (contracts/c19b.py): what fit hands to Qhull ([y | X[:, low_dim_idx]] in the given column order), which facets it keeps (negative target
+component of the normal), the vertex selection (distinct vertices of the kept facets), the complement columns, what the interpolator is built on and evaluated at, the layout
+score_samples evaluates the distance on.
+NOT covered (Qhull / LinearNDInterpolator are external): that Qhull's equations describe the hull of the data it was given and that the interpolator interpolates (hence zero
+distance / residual at selected samples, positivity for unselected ones, the invariances): bounded runtime checks only."""
 from pyvc.api import *
 from pyvc import skstubs
 from pyvc.engine import ExtNS, ExtClass, Opaque
@@ -188,6 +191,7 @@ def u_hull_distance():
     return Unit('DirectionalConvexHull._directional_convex_hull_distance', body, funcs={SB + '._directional_distance': dd_contract()}, functions=[q])
 
 UNITS = [lambda: u_directional_distance(), lambda: u_hull_distance()]
+EXTRA_MODULES = ['c19b']      # data flow of fit / score_samples / score_feature_matrix around Qhull and the interpolator (own numpy model)
 RT = True
 EVIDENCE_LEVEL = 'exploration'      # most clauses of C19 depend on Qhull: the property as a whole stays at the bounded level
 TRUSTED = ["SUMD: finite sum over the coordinates (uninterpreted; matrix products entry by entry); floats as reals; -inf is below every real",
